@@ -315,12 +315,12 @@ def c08(tier, seed, wd, replay):
     spec = {"kind": "C08", "seed": seed, "vectors": vectors}
     if tier == "quick":
         lemma_run(run, "C08", "lemma-3x2-D", qcfg("l", NV=3, InitBV=3, Kinds={"D", "U"}, OnlyOps={"new"})[1], wd)
-        cfgs = [(qcfg("graphs-3x2-DU", NV=3, InitBV=3, Kinds={"D", "U"}, OnlyOps={"new"}), "FalsyVertex"),
+        cfgs = [(qcfg("graphs-3x2-DU", NV=3, InitBV=3, Kinds={"D", "U"}, OnlyOps={"new"}), "tagged-mixed"),
                 (qcfg("graphs-2x2-DU", Kinds={"D", "U"}, OnlyOps={"new", "setv"}), "Vertex"),
                 (qcfg("graphs-3x3-D-chain", NV=3, InitBV=3, NL=3, Kinds={"D"}, OnlyOps={"new"}), "EmptyLenVertex")]
     else:
         lemma_run(run, "C08", "lemma-3x2", qcfg("l", NV=3, InitBV=3, Kinds={"D", "U"})[1], wd)
-        cfgs = [(qcfg("graphs-3x2-DU", NV=3, InitBV=3, Kinds={"D", "U"}, OnlyOps={"new", "setv"}), "FalsyVertex"),
+        cfgs = [(qcfg("graphs-3x2-DU", NV=3, InitBV=3, Kinds={"D", "U"}, OnlyOps={"new", "setv"}), "tagged-mixed"),
                 (qcfg("graphs-3x2-DU", NV=3, InitBV=3, Kinds={"D", "U"}, OnlyOps={"new"}), "Vertex"),
                 (qcfg("graphs-3x2-DU", NV=3, InitBV=3, Kinds={"D", "U"}, OnlyOps={"new"}), "SubVertex"),
                 (qcfg("graphs-3x3-D", NV=3, InitBV=3, NL=3, Kinds={"D"}, OnlyOps={"new"}), "EmptyLenVertex"),
